@@ -300,6 +300,8 @@ def h_newton(ctx, cfg):
 ACCELERATIONS = ("NoTransformation", "Aitken", "Secant", "Alternate2Delta", "AlternateDeltaSquared", "MinimumPolynomial")
 # number of residual evaluations after which a run with this method has executed the disciplines on its first accelerated iterate
 FIRST_ACCELERATED = {"Aitken": 3, "Secant": 3, "MinimumPolynomial": 3, "AlternateDeltaSquared": 4}
+# float64 replay of h_accel: an iterate farther than THROWN * (1 + initial error + |solution|) from the solution is the trace of a division by rounding noise
+THROWN = 1.0e6
 
 
 class LstsqContract:
@@ -472,6 +474,14 @@ def h_accel(ctx, cfg):
     mda.scaling = mda.ResidualScaling(scaling)
     K = cfg["K"]
     data = {nm: ctx.array(list(v)) for nm, v in {**xroot, **y0}.items()}
+    iterates = []
+    if not ctx.symbolic:
+        # float64 replay: record every coupling iterate handed to a discipline (see ``_thrown`` below)
+        for d_ in discs:
+            def _run(input_data, _orig=d_._run):
+                iterates.append({nm: np.array(input_data[nm], dtype=float) for nm in S.couplings if nm in input_data})
+                return _orig(input_data)
+            d_._run = _run
     zero_division = False
     try:
         out = mda.execute(data)
@@ -484,7 +494,23 @@ def h_accel(ctx, cfg):
     if zero_division:
         ctx.check(label, ctx.false())
         return
-    finite = all(bool(np.all(np.isfinite(np.asarray(out[nm], dtype=float)))) for nm in S.outs) if not ctx.symbolic else True
+    finite = True
+    if not ctx.symbolic:
+        # The symbolic run decides this obligation (ZeroDivisionError on a feasible path: a denominator that is EXACTLY zero).  In the
+        # float64 replay of such a counterexample the exact 0/0 shows up in one of two ways, depending on whether the intermediate
+        # quotients of the model happen to be representable: NaN/inf couplings, or a denominator of rounding noise (~1e-16 relative)
+        # that throws the next iterate ~1e10..1e16 times the initial error away from the solution (a later sweep may bring it back).
+        # Both are recognised: some iterate handed to a discipline, or the returned value, is not finite or lies farther than
+        # THROWN * (1 + |y0 - y*| + |y*|) from the exact solution y* of the contraction.
+        iterates.append({nm: np.asarray(out[nm], dtype=float) for nm in S.couplings})
+        finite = all(bool(np.all(np.isfinite(np.asarray(out[nm], dtype=float)))) for nm in S.outs)
+        ref = {nm: np.array([float(v) for v in ystar[nm]]) for nm in S.couplings}
+        ini = {nm: np.array([float(v) for v in y0[nm]]) for nm in S.couplings}
+        scale = 1.0 + max(float(np.max(np.abs(ini[nm] - ref[nm]))) for nm in S.couplings) + max(float(np.max(np.abs(ref[nm]))) for nm in S.couplings)
+        for it in iterates:
+            for nm, v in it.items():
+                if not np.all(np.isfinite(v)) or float(np.max(np.abs(v - ref[nm]))) > THROWN * scale:
+                    finite = False
     ctx.check(label, ctx.true() if finite else ctx.false())
     if not finite:
         return
